@@ -32,6 +32,7 @@ func main() {
 	replay := flag.String("replay", "", "replay file: re-evaluate that obligation on the current tree")
 	noEvidence := flag.Bool("no-evidence", false, "do not write evidence files (used for scratch-copy analysis)")
 	jsonOut := flag.Bool("json", false, "print obligations as JSON (scratch-copy analysis)")
+	renameTo := flag.String("rename-to", "", "write a copy of -repo with every unexported identifier renamed into this directory and exit")
 	selftest := flag.Bool("selftest", false, "run the mutant corpus against the current tree (also part of -tier thorough)")
 	flag.Parse()
 
@@ -43,6 +44,13 @@ func main() {
 		seed, _ = strconv.Atoi(s)
 	}
 
+	if *renameTo != "" {
+		if err := renameAll(*repo, *renameTo, "Zq"); err != nil {
+			fmt.Println("rename failed:", err)
+			os.Exit(2)
+		}
+		return
+	}
 	start := time.Now()
 	p, err := loadProg(*repo)
 	if err != nil {
